@@ -56,6 +56,13 @@ func TestC04Concurrent(t *testing.T) {
 		for g := range plans {
 			plans[g] = rapid.SliceOfN(rapid.IntRange(0, 13), nOps, nOps).Draw(t, fmt.Sprintf("plan%d", g))
 		}
+		if rapid.Bool().Draw(t, "continuousOverwriter") {
+			// mutator 0 does nothing but overwrite its pipeline, a few hundred times, while the senders send
+			// several times more: many overwrite windows
+			long := make([]int, 8*len(plans[0]))
+			plans[0] = long
+			nSends *= 4
+		}
 		b, _ := eventlogger.NewBroker()
 		w := &nodes.World{}
 		var clock atomic.Int64
@@ -79,6 +86,9 @@ func TestC04Concurrent(t *testing.T) {
 				var cur *incarnation
 				for i, op := range plans[g] {
 					et := ets[(g+i/4)%2]
+					if g == 0 {
+						et = "A"
+					}
 					switch op {
 					case 0, 1, 2, 3: // register a new incarnation (overwrites the current one of the same type)
 						k := int(kseq.Add(1))
@@ -167,6 +177,9 @@ func TestC04Concurrent(t *testing.T) {
 				for i := 0; i < nSends; i++ {
 					id := int(sid.Add(1))
 					et := ets[(s+i)%2]
+					if s == 0 {
+						et = "A"
+					}
 					lin := &nodes.Lin{Path: fmt.Sprintf("S%d", id), SendID: id}
 					st := stamp()
 					_, _ = b.Send(ctx, eventlogger.EventType(et), lin)
